@@ -151,6 +151,48 @@ def check_forbidden(fx, rep, rule, seen, sfx=""):
     return hits
 
 
+def check_output_provenance(fx, rep, rule):
+    """"every string they return is a slice of the buffer or of the query": a borrowed `&str` result can be a slice of an argument,
+    of `self`'s buffer - or a `'static` literal, which the signature allows just as well. No value returned by the borrowing
+    queries (class / method / throwable lookups, the two frame iterators) may contain a string literal or string constant."""
+    import sym as S
+    import readers as RD
+    import anchors as A_
+    targets = []
+    for nm in ("remap_class", "remap_method", "remap_throwable"):
+        targets += A_.method(fx, A_.CACHE, nm)
+    wl, wo = RD.iterator_roles(fx, rep, rule, "cache")
+    targets += [q for q in (wl, wo) if q]
+    n = 0
+    for q in targets:
+        b = fx.bodies[q]
+        rep.fn(q)
+        sy = S.Sym(fx, inline_mut=True, inline_depth=6)
+        try:
+            res = sy.eval_body(b)
+        except S.Undecidable as e:
+            rep.undecidable(rule, "%s/output-provenance/%s" % (rule, C.short_fn(q)), loc=F.short_file(b["sp"]), construct=e.msg)
+            continue
+        vals = [v for st, (k, v) in res]
+        for key in sy.loop_order:
+            vals += [v for st, (k, v) in sy.loops[key]["paths"] if k == S.RET]
+        lits = []
+
+        def g(t):
+            if (t[0] == "lit" and t[1] == "str" and t[2] != "") or (t[0] == "const" and isinstance(t[2], str) and t[2].strip().startswith('"')):
+                lits.append(t)
+            return None
+        import fc
+        for v in vals:
+            if v is not None:
+                fc.rewrite(v, g)
+        n += 1
+        rep.check(rule, "%s/output-provenance/%s" % (rule, C.short_fn(q)), not lits, loc=F.short_file(b["sp"]),
+                  found=("returned value contains the literal %s" % S.tstr(lits[0])) if lits else "%d result value(s), none contains a string literal" % len(vals),
+                  expected="returned strings are slices of the buffer (read_string) or of the query, never a 'static literal")
+    return n
+
+
 def run(ctx, rep):
     fx = ctx.facts("")
     rep.configs.append("default")
@@ -168,6 +210,8 @@ def run(ctx, rep):
     check_forbidden(fx, rep, "C12.borrow", seen)
     import recursion as RC
     RC.check_recursion(fx, rep, "C12.rec", seen)
+    n_out = check_output_provenance(fx, rep, "C12.out")
+    rep.floor("C12.out", n_out, 4, "borrowing query functions whose results were inspected")
     # public signatures: query results borrow (no owned String smuggled as &'static)
     for what, cands in A.cache_query_roots(fx).items():
         for p in cands:
